@@ -24,7 +24,7 @@ CLAIMS = {
             "is copied by the copy members and no holder is instantiated for the payload type Any, get<T> guarded by the exact-type test and "
             "otherwise throwing std::runtime_error, and the type-name helper behind toString() / the mismatch message hands "
             "abi::__cxa_demangle only a null or malloc()ed buffer; members of Any that describe the held value (a cached type) are written by every "
-            "member that replaces the holder; every placement-new of an Optional payload is direct (not list) initialisation; the functions of demangle.cpp keep no mutable static state touched without a lock (R-C09-12). "
+            "member that replaces the holder; every placement-new of an Optional payload is direct (not list) initialisation; the functions of demangle.cpp keep no mutable static state touched without a lock (R-C09-12); an Optional source of every value category is copied by a constructor that takes an Optional (R-C09-13); the holder base through which Any deletes its payload has a virtual destructor (R-C09-14). "
             "These are necessary structural conditions of the property decided on every path; value equality of what is "
             "returned is not decided.",
             "Trusted: clang 14 front end/CFG; payload types behave as values; *this and the assignment argument are "
@@ -47,7 +47,7 @@ CLAIMS['C16'] = ('proof',
     "(a structural part of the faithfulness clause); a token [begin, end) consists of exactly the bytes of its scan loop (neither the "
     "delimiter that ends the scan nor a consumed delimiter the scan would stop at, no scanned byte lost), children are only appended in "
     "parse order and a property is stored under the name/value pair one parseProp call produced; the backward trim of a text content removes whitespace bytes only (its "
-    "condition evaluated for every byte value, plain char signed); wherever one comment is accepted a run of comments is (after a skipped comment the skipper is tried again before any other parse action, helpers followed); a read loop in readXML has an exit that does not depend on fread delivering bytes, and a negative ftell() result is rejected before it sizes the buffer, and the FILE is closed on every return and when a callee throws; memcmp-style block comparisons stay inside the bytes known to be in the buffer and results of strstr/strchr are tested for null before use; writes through self-allocated buffers stay inside them; a length returned by snprintf/vsnprintf is clamped before it is used to read the buffer (R-C16-15); no std::sto* conversion of document text outside a try block that converts std::invalid_argument / std::out_of_range (R-C16-16); every return of readXML is reached only through a read of the file in this call (R-C16-17). Obligations = one per "
+    "condition evaluated for every byte value, plain char signed); wherever one comment is accepted a run of comments is (after a skipped comment the skipper is tried again before any other parse action, helpers followed); a read loop in readXML has an exit that does not depend on fread delivering bytes, and a negative ftell() result is rejected before it sizes the buffer, and the FILE is closed on every return and when a callee throws; memcmp-style block comparisons stay inside the bytes known to be in the buffer and results of strstr/strchr are tested for null before use; writes through self-allocated buffers stay inside them; a length returned by snprintf/vsnprintf is clamped before it is used to read the buffer (R-C16-15); no std::sto* conversion of document text outside a try block that converts std::invalid_argument / std::out_of_range (R-C16-16); every return of readXML is reached only through a read of the file in this call (R-C16-17); no static object is changed by the parser without a lock (readXML may run concurrently on different files), memcpy from the cursor needs all its bytes inside the buffer, a buffer from new[] is zeroed or the parse is bounded by what fread delivered. Obligations = one per "
     "analysed function and clause; all must be discharged. The faithfulness clause (returned tree equals the generating "
     "tree) is a value-level property and is not decided.",
     "Trusted: clang 14 CFG; isalpha/isdigit/isspace are false at NUL; the abstract transfer functions of the rule engine "
